@@ -76,6 +76,11 @@ type c26Spec struct {
 	SplitWrite bool
 	// BatchFrames is Limits.MaxBatchFrames (default 8).
 	BatchFrames int
+	// QueueItems is Limits.MaxQueuedItemsPerConn (default 16).
+	QueueItems int
+	// BatchWait: Limits.WriteBatchMaxWait > 0 (the write loop sleeps on the virtual clock to
+	// coalesce an isolated RPC frame with the next one).
+	BatchWait bool
 	// Atomics: atomic operations are scheduling points too.
 	Atomics bool
 	Bound   int
@@ -99,7 +104,7 @@ func (s c26Spec) bounds() map[string]any {
 	}
 	return map[string]any{"caller_threads": len(s.Callers), "calls": ncalls, "calls_ctx_and_peer_answer": callers, "answer_order": s.Order,
 		"stray_response": s.Stray, "reset_timer": s.ResetAt, "close_timer": s.CloseAt, "read_chunk": s.ReadChunk, "split_response_write": s.SplitWrite,
-		"max_batch_frames": s.BatchFrames, "atomics_are_scheduling_points": s.Atomics}
+		"max_batch_frames": s.BatchFrames, "max_queued_items": s.QueueItems, "write_coalescing_wait": s.BatchWait, "atomics_are_scheduling_points": s.Atomics}
 }
 
 func (s c26Spec) action(tag string) string {
@@ -498,6 +503,9 @@ func c26Scenario(s c26Spec) vsched.Scenario {
 	if s.BatchFrames == 0 {
 		s.BatchFrames = 8
 	}
+	if s.QueueItems == 0 {
+		s.QueueItems = 16
+	}
 	return vsched.Scenario{
 		Name: s.Name, Property: "C26", Bound: s.Bound, Horizon: 6000, Delay: true, QuietAtomics: !s.Atomics,
 		Bounds: s.bounds(),
@@ -512,8 +520,11 @@ func c26Scenario(s c26Spec) vsched.Scenario {
 					w.tags = append(w.tags, c.Tag)
 				}
 			}
-			limits := core.Limits{MaxFrameBodyBytes: c26MaxBody, MaxQueuedBytesPerConn: 1 << 16, MaxQueuedItemsPerConn: 16,
+			limits := core.Limits{MaxFrameBodyBytes: c26MaxBody, MaxQueuedBytesPerConn: 1 << 16, MaxQueuedItemsPerConn: s.QueueItems,
 				MaxBatchBytes: c26MaxBody, MaxBatchFrames: s.BatchFrames}
+			if s.BatchWait {
+				limits.WriteBatchMaxWait = c26Unit / 2
+			}
 			c := New(&c26End{w: w, client: true}, Config{Limits: limits, SourceID: 1}, nil)
 			c.Start()
 			if s.ResetAt > 0 {
@@ -679,50 +690,51 @@ func c26Pre(tag string) c26CallSpec             { return c26CallSpec{Tag: tag, C
 
 func c26Specs(r *ev.R) []c26Spec {
 	b := ev.Pick(r, 2, 3)
+	two := [][]c26CallSpec{c26Calls(c26Bg("a1")), c26Calls(c26Bg("b1"))}
+	three := [][]c26CallSpec{c26Calls(c26Bg("a1")), c26Calls(c26Bg("b1")), c26Calls(c26Bg("c1"))}
+	cancelLate := [][]c26CallSpec{c26Calls(c26Cancel("a1", 1), c26Bg("a2")), c26Calls(c26Bg("b1"))}
+	// both tiers (delay bound 2 quick, 3 thorough)
 	specs := []c26Spec{
-		// all answered, reverse order, a stray response first
-		{Name: "rpc-2calls-ok-lifo-stray", Callers: [][]c26CallSpec{c26Calls(c26Bg("a1")), c26Calls(c26Bg("b1"))}, Order: "lifo", Stray: true, Bound: b},
+		// all answered, requests that arrive together answered in reverse order, a stray response first
+		{Name: "rpc-2calls-ok-lifo-stray", Callers: two, Order: "lifo", Stray: true, Bound: b},
 		// handler error + duplicate answer
-		{Name: "rpc-2calls-err-dup", Callers: [][]c26CallSpec{c26Calls(c26Bg("a1")), c26Calls(c26Bg("b1"))},
-			Peer: map[string]string{"a1": "err", "b1": "dup"}, Bound: b},
-		// a1 is cancelled, answered only after the caller gave up, while the same caller's next call is in flight
-		{Name: "rpc-cancel-late-answer-next-call", Callers: [][]c26CallSpec{c26Calls(c26Cancel("a1", 1), c26Bg("a2")), c26Calls(c26Bg("b1"))},
-			Peer: map[string]string{"a1": "late"}, Bound: b},
+		{Name: "rpc-2calls-err-dup", Callers: two, Peer: map[string]string{"a1": "err", "b1": "dup"}, Bound: b},
+		// a1 is cancelled and answered only after its caller gave up, while the same caller's next call is in flight
+		{Name: "rpc-cancel-late-answer-next-call", Callers: cancelLate, Peer: map[string]string{"a1": "late"}, Bound: b},
 		// deadline on a call that is never answered, then a reset
 		{Name: "rpc-timeout-never-then-reset", Callers: [][]c26CallSpec{c26Calls(c26Timeout("a1", 1)), c26Calls(c26Bg("b1"), c26Bg("b2"))},
 			Peer: map[string]string{"a1": "never", "b2": "never"}, ResetAt: 2, Bound: b},
 		// local Close at any point, one call never answered
-		{Name: "rpc-never-close-timer", Callers: [][]c26CallSpec{c26Calls(c26Bg("a1")), c26Calls(c26Bg("b1"))},
-			Peer: map[string]string{"a1": "never"}, CloseAt: 1, Bound: b},
-		// peer hangs up on the first request it reads; an already cancelled context; an empty response
+		{Name: "rpc-never-close-timer", Callers: two, Peer: map[string]string{"a1": "never"}, CloseAt: 1, Bound: b},
+		// an already cancelled context; an empty response; the peer hangs up on a request
 		{Name: "rpc-precancelled-empty-hangup", Callers: [][]c26CallSpec{c26Calls(c26Pre("a1"), c26Bg("a2")), c26Calls(c26Bg("b1"), c26Bg("b2"))},
 			Peer: map[string]string{"a2": "empty", "b2": "hangup"}, Bound: b},
+		// write queue of one item: admission failure of a call while another one is queued
+		{Name: "rpc-queue-of-one", Callers: [][]c26CallSpec{c26Calls(c26Bg("a1")), c26Calls(c26Bg("b1"), c26Bg("b2"))}, QueueItems: 1, Order: "lifo", Bound: b},
+		// three concurrent calls
+		{Name: "rpc-3calls-ok-lifo-stray", Callers: three, Order: "lifo", Stray: true, Bound: b},
+		{Name: "rpc-3callers-cancel-before-reset", Callers: [][]c26CallSpec{c26Calls(c26Cancel("a1", 1), c26Bg("a2")), c26Calls(c26Bg("b1")), c26Calls(c26Timeout("c1", 3))},
+			Peer: map[string]string{"a1": "late", "c1": "never", "a2": "err"}, ResetAt: 2, Bound: b},
 	}
 	if r.Thorough() {
-		three := [][]c26CallSpec{c26Calls(c26Bg("a1")), c26Calls(c26Bg("b1")), c26Calls(c26Bg("c1"))}
 		specs = append(specs,
-			c26Spec{Name: "rpc-3calls-ok-lifo-stray", Callers: three, Order: "lifo", Stray: true, Bound: 3},
 			c26Spec{Name: "rpc-3calls-err-nf-dup-fifo-chunked", Callers: three, Peer: map[string]string{"a1": "err", "b1": "nf", "c1": "dup"}, ReadChunk: 13, Bound: 3},
 			c26Spec{Name: "rpc-3calls-split-write-frame-per-flush", Callers: three, Peer: map[string]string{"b1": "err"}, SplitWrite: true, BatchFrames: 1, Order: "lifo", Bound: 3},
+			c26Spec{Name: "rpc-3calls-write-coalescing-wait", Callers: three, Peer: map[string]string{"c1": "dup"}, BatchWait: true, Order: "lifo", Stray: true, Bound: 3},
 			c26Spec{Name: "rpc-3callers-cancel-late-timeout-late", Callers: [][]c26CallSpec{c26Calls(c26Cancel("a1", 1), c26Bg("a2")), c26Calls(c26Timeout("b1", 2), c26Bg("b2")), c26Calls(c26Bg("c1"))},
 				Peer: map[string]string{"a1": "late", "b1": "late"}, Bound: 3},
 			c26Spec{Name: "rpc-3callers-reset-before-cancel", Callers: [][]c26CallSpec{c26Calls(c26Cancel("a1", 2), c26Bg("a2")), c26Calls(c26Bg("b1")), c26Calls(c26Bg("c1"))},
 				Peer: map[string]string{"a1": "never", "c1": "never"}, ResetAt: 1, Order: "lifo", Bound: 3},
-			c26Spec{Name: "rpc-3callers-cancel-before-reset", Callers: [][]c26CallSpec{c26Calls(c26Cancel("a1", 1), c26Bg("a2")), c26Calls(c26Bg("b1")), c26Calls(c26Timeout("c1", 3))},
-				Peer: map[string]string{"a1": "late", "c1": "never", "a2": "err"}, ResetAt: 2, Bound: 3},
 			c26Spec{Name: "rpc-3callers-close-timer-late-dup", Callers: [][]c26CallSpec{c26Calls(c26Timeout("a1", 1), c26Bg("a2")), c26Calls(c26Bg("b1")), c26Calls(c26Bg("c1"))},
 				Peer: map[string]string{"a1": "late", "b1": "dup", "c1": "never"}, CloseAt: 2, Bound: 3},
 			c26Spec{Name: "rpc-3callers-garbage", Callers: [][]c26CallSpec{c26Calls(c26Bg("a1")), c26Calls(c26Bg("b1")), c26Calls(c26Pre("c1"), c26Bg("c2"))},
 				Peer: map[string]string{"b1": "garbage", "c2": "empty"}, Order: "lifo", Bound: 3},
-			// the quick scripts once more with every atomic operation as a scheduling point
-			c26Spec{Name: "rpc-2calls-ok-lifo-stray-atomics", Callers: [][]c26CallSpec{c26Calls(c26Bg("a1")), c26Calls(c26Bg("b1"))}, Order: "lifo", Stray: true, Atomics: true, Bound: 3},
-			c26Spec{Name: "rpc-cancel-late-answer-next-call-atomics", Callers: [][]c26CallSpec{c26Calls(c26Cancel("a1", 1), c26Bg("a2")), c26Calls(c26Bg("b1"))},
-				Peer: map[string]string{"a1": "late"}, Atomics: true, Bound: 3},
-			c26Spec{Name: "rpc-never-close-timer-atomics", Callers: [][]c26CallSpec{c26Calls(c26Bg("a1")), c26Calls(c26Bg("b1"))},
-				Peer: map[string]string{"a1": "never"}, CloseAt: 1, Atomics: true, Bound: 3},
+			// every atomic operation is a scheduling point too
+			c26Spec{Name: "rpc-2calls-ok-lifo-stray-atomics", Callers: two, Order: "lifo", Stray: true, Atomics: true, Bound: 3},
+			c26Spec{Name: "rpc-cancel-late-answer-next-call-atomics", Callers: cancelLate, Peer: map[string]string{"a1": "late"}, Atomics: true, Bound: 3},
+			c26Spec{Name: "rpc-never-close-timer-atomics", Callers: two, Peer: map[string]string{"a1": "never"}, CloseAt: 1, Atomics: true, Bound: 3},
 			// deeper bound on the smallest colliding script
-			c26Spec{Name: "rpc-2calls-cancel-late-bound4", Callers: [][]c26CallSpec{c26Calls(c26Cancel("a1", 1), c26Bg("a2")), c26Calls(c26Bg("b1"))},
-				Peer: map[string]string{"a1": "late", "b1": "err"}, Bound: 4},
+			c26Spec{Name: "rpc-2calls-cancel-late-bound4", Callers: cancelLate, Peer: map[string]string{"a1": "late", "b1": "err"}, Bound: 4},
 		)
 	}
 	return specs
@@ -819,7 +831,7 @@ func TestVerifC26RPC(t *testing.T) {
 	r.Guard("rpc-executions", execs >= 1000, "executions=%d over %d scenarios", execs, explored)
 	r.Guard("rpc-outcomes", outcomes >= 3*explored, "sum of distinct observation vectors=%d over %d scenarios", outcomes, explored)
 	for _, n := range []string{"call-own-payload", "call-own-remote-error", "call-own-empty-response", "call-error-canceled", "call-error-deadline",
-		"call-error-stopped", "call-error-reset", "call-error-eof", "response-written-for-a-call-that-gave-up", "stray-response-sent",
+		"call-error-stopped", "call-error-reset", "call-error-eof", "call-error-queue-full", "response-written-for-a-call-that-gave-up", "stray-response-sent",
 		"all-returned-on-live-connection", "connection-lost-before-close"} {
 		r.Guard("rpc-seen-"+n, c26Seen[n] > 0, "executions/calls exhibiting %q: %d (all: %s)", n, c26Seen[n], all)
 	}
